@@ -446,7 +446,10 @@ def native_gather_main():
     sys.exit(1 if c.failed else 0)
 
 
-GATHER_REPLAY_SCRIPT = "import sys; sys.path.insert(1, '/verif'); from contracts.plumbing import native_gather_main; native_gather_main()"
+import os as _os
+
+_VERIF = _os.path.dirname(_os.path.dirname(_os.path.abspath(__file__)))
+GATHER_REPLAY_SCRIPT = f"import sys; sys.path.insert(1, {_VERIF!r}); from contracts.plumbing import native_gather_main; native_gather_main()"
 
 
 def _replay_gather(ob):
